@@ -9,7 +9,7 @@
    [klt key]: strictly ascending by [key]; [StronglySorted]: every element is below all later ones. *)
 From Coq Require Import List Sorted Permutation.
 From GixV.Base Require Import Bytes BytesFacts Outcome.
-From GixV.C18 Require Import Validate Model Spec ProofsOrder ProofsMerge ProofsIter ProofsFind.
+From GixV.C18 Require Import Validate Model Spec ProofsOrder ProofsPrefix ProofsMerge ProofsIter ProofsFind.
 Import ListNotations.
 
 (* SortedLoosePaths (walk, filter, collect, sort by full name) yields exactly the regular files below the
@@ -56,6 +56,12 @@ Proof. exact L_iter_all_sorted_union. Qed.
 Theorem iter_all_without_packed_refs : forall files,
   iter_all files None = map snd (all_entries files []).
 Proof. exact iter_all_no_packed. Qed.
+
+(* the packed side of prefixed(p): on strictly sorted packed-refs, "seek to the first record not below p,
+   take while p is a prefix" yields exactly the records whose name starts with p *)
+Theorem packed_prefixed_is_filter : forall p packed, StronglySorted (klt fst) packed ->
+  packed_iter (Some p) packed = filter (fun r => starts_with (fst r) p) packed.
+Proof. exact L_packed_prefixed_is_filter. Qed.
 
 (* try_find of a short name is git's ref_rev_parse_rules, first hit wins — for names outside the
    known class find-fullname-fallback, when nothing of that name lies in the git dir itself, loose
